@@ -182,6 +182,20 @@ def run_ops(case, drv) -> Outcome:
                     viol = viol or v('align_vectors', 'align_vectors rotation differs from scipy')
             else:
                 viol = viol or v('align-raises', f'align_vectors raises {res}')
+            # weighted: finite weights, and one infinite weight (that pair is aligned exactly, the others fix the twist)
+            for kind in ('finite', 'inf'):
+                w = np.array([rng.uniform(0.3, 3) for _ in range(nb + 1)])
+                if kind == 'inf':
+                    w[rng.randrange(nb + 1)] = np.inf
+                st, res = call(lambda w=w: Rotation.align_vectors(torch.as_tensor(b), torch.as_tensor(a), weights=torch.as_tensor(w)))
+                st_s, sres = call(lambda w=w: SR.align_vectors(b, a, weights=w))
+                if st_s != 'ok':
+                    continue
+                if st == 'ok':
+                    if not rmat(res[0].as_matrix(), sres[0].as_matrix(), 1e-6):
+                        viol = viol or v(f'align_vectors:{kind}-weights', f'align_vectors with {kind} weights {w.tolist()} differs from scipy')
+                else:
+                    viol = viol or v('align-raises', f'align_vectors with {kind} weights raises {res}')
     return Outcome(key=('ops', nb, case['seed'] % 101), viol=viol, branches=[f'ops:batch{nb}'], sample=case)
 
 
